@@ -60,7 +60,7 @@ class Fn:
                 return '(' + ', '.join(kws[a] for a in self.cfg['ctors'][f.id]) + ')'
         raise Untranslatable('expr ' + ast.dump(e)[:80])
     def cond(self, e, env):
-        if isinstance(e, ast.Name) and self.cfg['types'].get(e.id)=='str': return '(negb (isnil %s))' % self.expr(e, env)
+        if isinstance(e, ast.Name) and self.cfg['types'].get(e.id) in ('str','strbuf'): return '(negb (isnil %s))' % self.expr(e, env)
         return self.expr(e, env)
     def is_char(self, e, env):
         return (isinstance(e, ast.Name) and self.cfg['types'].get(e.id)=='char') or \
@@ -84,12 +84,16 @@ class Fn:
         if not ss: return k(env)
         s, rest = ss[0], ss[1:]
         if isinstance(s, ast.Expr) and isinstance(s.value, ast.Constant): return self.stmts(rest, env, k)   # docstring
+        if isinstance(s, ast.FunctionDef) and s.name in env.get('closures', {}): return self.stmts(rest, env, k)
+        if isinstance(s, ast.AnnAssign) and isinstance(s.target, ast.Name) and s.value is not None:
+            s = ast.Assign(targets=[s.target], value=s.value, lineno=s.lineno)
         if isinstance(s, ast.Assign) and len(s.targets)==1 and isinstance(s.targets[0], ast.Name):
             v = s.targets[0].id
             if isinstance(s.value, ast.List) and not s.value.elts: val='[]'
             else: val = self.expr(s.value, env)
             env2 = dict(env); nm = self.fresh(v); env2[v]=nm
-            return '(let %s := %s in\n%s)' % (nm, val, self.stmts(rest, env2, k))
+            ann = (' : ' + self.cfg['coqtypes'][v]) if v in self.cfg.get('coqtypes', {}) else ''
+            return '(let %s%s := %s in\n%s)' % (nm, ann, val, self.stmts(rest, env2, k))
         if isinstance(s, ast.AugAssign) and isinstance(s.target, ast.Name) and 'scan' in env and s.target.id==env['scan']['i'] and isinstance(s.op, ast.Add) and isinstance(s.value, ast.Constant) and s.value.value>0:
             env2 = dict(env); env2['scan'] = dict(env['scan']); env2['scan']['k'] += s.value.value
             return self.stmts(rest, env2, k)
@@ -108,6 +112,7 @@ class Fn:
         if isinstance(s, ast.If):
             c = self.cond(s.test, env)
             return '(if %s\n then %s\n else %s)' % (c, self.stmts(s.body + rest, env, k), self.stmts(s.orelse + rest, env, k))
+        if isinstance(s, ast.For) and 'for' in env: return env['for'](s, env, lambda e2: self.stmts(rest, e2, k))
         if isinstance(s, ast.Continue): return env['continue'](env)
         if isinstance(s, ast.Raise):
             self.raise_sites += 1
@@ -152,6 +157,42 @@ def gen_escape(path):
     out += 'Definition _escape_nix_string (escape_interpolation : bool) (value : str) : str :=\n  _escape_nix_string_loop (List.length value) escape_interpolation value [].\n'
     return out
 
+
+def gen_fold(path, name, params, types, ctors, regexes, state, ret_ty, coqtypes):
+    """idiom A: prelude; nested defs with nonlocal; `for ch in <param>:` over a state tuple; postlude"""
+    f = Fn(path, name, {'params': params, 'types': types, 'ctors': ctors, 'regexes': regexes, 'coqtypes': coqtypes})
+    closures = {}
+    for st in f.fn.body:
+        if isinstance(st, ast.FunctionDef):
+            if st.args.args or any(not isinstance(x, (ast.Nonlocal, ast.Assign, ast.If, ast.Expr, ast.Raise)) for x in st.body):
+                raise Untranslatable('closure shape ' + st.name)
+            closures[st.name] = (lambda body: (lambda env, k2: f.stmts(body, env, k2)))(st.body)
+    tup = lambda env: '(' + ', '.join(env[v] for v in state) + ')'
+    pieces = {}
+    def do_for(node, env, k_after):
+        if not (isinstance(node.target, ast.Name) and isinstance(node.iter, ast.Name) and node.iter.id in params and not node.orelse):
+            raise Untranslatable('for shape')
+        chv = node.target.id
+        if types.get(chv) != 'char': raise Untranslatable('loop variable type')
+        env_in = dict(env); 
+        for v in state: env_in[v] = v
+        env_in[chv] = chv
+        env_in['continue'] = lambda e: 'Ok ' + tup(e)
+        env_in.pop('for', None)
+        pieces['step'] = f.stmts(node.body, env_in, lambda e: 'Ok ' + tup(e))
+        env_out = dict(env)
+        for v in state: env_out[v] = v + "'"
+        return ('(match %s_loop %s %s with\n | Err e => Err e\n | Ok st => let \'(%s) := st in\n%s end)'
+                % (name, tup(env), node.iter.id, ', '.join(v + "'" for v in state), k_after(env_out)))
+    env = {'closures': closures, 'for': do_for, 'return': lambda e: 'Ok ' + e}
+    body = f.stmts(f.fn.body, env, lambda e: (_ for _ in ()).throw(Untranslatable('falls off the end')))
+    st_ty = 'STATE_' + name
+    out  = 'Definition %s_step (st : %s) (%s : ascii) : res %s :=\n  let \'(%s) := st in\n%s.\n' % (name, st_ty, 'ch', st_ty, ', '.join(state), pieces['step'])
+    out += ('Fixpoint %s_loop (st : %s) (s : str) : res %s :=\n  match s with [] => Ok st | ch :: r => match %s_step st ch with Ok st\' => %s_loop st\' r | Err e => Err e end end.\n'
+            % (name, st_ty, st_ty, name, name))
+    out += 'Definition %s %s : res %s :=\n%s.\n' % (name, ' '.join('(%s : %s)' % (p, t) for p, t in params.items()), ret_ty, body)
+    return out, f.raise_sites
+
 def gen_regex(name, pattern):
     p = sre_parse.parse(pattern)
     items = list(p)
@@ -185,3 +226,12 @@ if __name__=='__main__':
             pat = n.value.args[0].value
             print('(* GENERATED from _NPATH_IDENTIFIER_RE = re.compile(%r) *)' % pat)
             print(gen_regex('re_npath_ident', pat))
+    print('(* GENERATED from cli/manipulations.py:_parse_npath (idiom A) *)')
+    print('Definition STATE__parse_npath : Type := (list (str * bool) * str * bool * bool * bool)%type.')
+    out, nraise = gen_fold(repo + '/nix_manipulator/cli/manipulations.py', '_parse_npath',
+                   params={'npath': 'str'},
+                   types={'npath':'str','buffer':'strbuf','segments':'list','ch':'char','name':'str'},
+                   ctors={'_NPathSegment': ['name','quoted']}, regexes={'_NPATH_IDENTIFIER_RE': 're_npath_ident'},
+                   state=['segments','buffer','in_quotes','quoted_segment','escape'], ret_ty='(list (str * bool))',
+                   coqtypes={'segments': 'list (str * bool)', 'buffer': 'str'})
+    print(out); print('(* raise sites: %d *)' % nraise)
